@@ -5,9 +5,17 @@ import itertools
 SAMPLE = {"int": "3", "float": "2.5", "str": "'ab'", "list": "[1, 2]", "tuple": "(1, 2)", "bool": "True"}
 
 
+EMPTY = {"str": "''", "list": "[]", "tuple": "()"}
+
+
+def sample(t, shape):
+    return EMPTY[t] if shape == "empty" else SAMPLE[t]
+
+
 def render(e):
     if e["k"] == "bin":
-        return ["a = %s" % SAMPLE[e["l"]], "b = %s" % SAMPLE[e["r"]], "c = a %s b" % e["op"], "print(c)"], "a %s b" % e["op"]
+        return ["a = %s" % sample(e["l"], e.get("ls", "full")), "b = %s" % sample(e["r"], e.get("rs", "full")),
+                "c = a %s b" % e["op"], "print(c)"], "a %s b" % e["op"]
     inner = "(a %s b)" % e["op1"]
     expr = "%s %s d" % (inner, e["op2"]) if e["k"] == "left2" else "d %s %s" % (e["op2"], inner)
     return ["a = %s" % SAMPLE[e["l"]], "b = %s" % SAMPLE[e["r"]], "d = %s" % SAMPLE[e["c"]], "c = " + expr, "print(c)"], expr
